@@ -403,3 +403,7 @@ def expand(item, seed):
         return
     for sc in _expand0(item, seed):
         yield sc
+
+
+# round 7 summary for the evidence file
+RULE = RULE + "  Round 7: (a) 'again' - a refused frame followed by one more legal frame, the caller catches the protocol exception and receives again: no later call may return the refused frame's payload (every first byte x length class x state that is refused whatever the state; 40 % of the seeded header-level classes); (b) receive timeouts (caller retries) between the first two frames of every sequencing word of length 2-3 and in 25 % of the seeded histories; (c) enableTrace on in 15 %."
